@@ -352,9 +352,9 @@ def import_cases() -> list:
     R = ROOT_TOKEN
     cs: list = []
 
-    def case(style: str, files: dict, lookup: tuple = (), expect: str = "accept", mkdirs: tuple = (), family: str = "import") -> None:
+    def case(style: str, files: dict, lookup: tuple = (), expect: str = "accept", mkdirs: tuple = (), family: str = "import", symlinks: Optional[dict] = None) -> None:
         cs.append({"family": family, "files": files, "main": MAIN, "lookup": list(lookup), "mkdirs": list(mkdirs),
-                   "expect": expect, "meta": {"style": style}})  # fmt: skip
+                   "expect": expect, "meta": {"style": style}, "symlinks": dict(symlinks or {})})  # fmt: skip
 
     # relative to the importing file; decoys where other rules would look
     case("rel-dot", {MAIN: _main(("./lib.exps",)), "src/lib.exps": _lib("real"), "lib.exps": _lib("decoy"), "inc1/lib.exps": _lib("decoy")}, ("inc1",))
@@ -419,6 +419,15 @@ def import_cases() -> list:
                   "    while ($n < 3) {\n        spin();\n    }\n    done_r();\n}\n")
     case("same-label-name-in-two-macros", {MAIN: same_label + "def 0 {\n    ~wait_for_flag();\n    mid();\n    ~retry($G);\n    ~wait_for_flag();\n    ~retry(2);\n    hold;\n}\n"})
     case("same-label-name-in-two-macros-other-order", {MAIN: same_label + "def 0 {\n    ~retry(1);\n    ~wait_for_flag();\n    end;\n}\ndef 1 {\n    ~wait_for_flag();\n    ~retry($H);\n}\n"})
+    # a directory symlink on the import path: a file reached through it imports relative to where it REALLY lies
+    case("symlinked-directory", {MAIN: _main(("./macros/m.exps",), ("m1", "m2")),
+                                 "shared/v2/macros/m.exps": _lib("m", ("m1",), ("../base.exps",)),
+                                 "shared/v2/base.exps": _lib("real", ("m2",)), "src/base.exps": _lib("decoy", ("m2",))},
+         symlinks={"src/macros": "../shared/v2/macros"})  # fmt: skip
+    # `return` inside a with-block / with an inline context in a macro body still leaves only the macro
+    ctxret = ("macro leave($a) {\n    pre($a);\n    with (actor $a) {\n        return;\n    }\n    never($a);\n}\n"
+              "macro outer2($b) {\n    ~leave($b);\n    mid($b);\n    if ($b == 1) {\n        with (object 3) {\n            return;\n        }\n    }\n    tail($b);\n}\n")
+    case("return-in-context-inside-macro", {MAIN: ctxret + "def 0 {\n    ~leave(2);\n    after1();\n    ~outer2(1);\n    after2();\n    ~leave(5);\n    hold;\n}\n"})
     # substitution is SIMULTANEOUS: an argument that is itself a variable of the calling macro, named like another parameter of the
     # called macro, is not substituted a second time
     swap = ("macro show($x, $y) {\n    out($x, $y);\n    $x = $y;\n}\nmacro swapped($x, $y) {\n    ~show($y, $x);\n    again($x, $y);\n}\n"
@@ -470,6 +479,12 @@ def write_case(case: dict, root: str) -> tuple:
         os.makedirs(os.path.dirname(path), exist_ok=True)
         with open(path, "w", encoding="utf-8") as fh:
             fh.write(text.replace(ROOT_TOKEN, base))
+    for link, target in case.get("symlinks", {}).items():
+        lp = os.path.normpath(os.path.join(base, link))
+        assert lp.startswith(root + os.sep), lp
+        os.makedirs(os.path.dirname(lp), exist_ok=True)
+        if not os.path.lexists(lp):
+            os.symlink(target, lp, target_is_directory=True)
     return os.path.join(base, case["main"]), [os.path.join(base, d) for d in case["lookup"]], base
 
 
